@@ -235,6 +235,7 @@ void conn_run(const Plan *p, const CredSet *cs, HonestOut *out,
 		memcpy(out->io_err_what[s], e[s]->io_err_what, sizeof(out->io_err_what[s]));
 		out->data_after_fail[s] = e[s]->data_after_fail;
 		out->recv_errs[s] = e[s]->recv_errs;
+		out->odd_sent[s] = e[s]->odd_sent;
 		out->got_after_err[s] = e[s]->got_after_err;
 		out->hs_done_step[s] = e[s]->hs_done_step;
 		out->rd_at_done[s] = e[s]->rd_at_done;
